@@ -75,7 +75,9 @@ ANCHORS = [
     ("kafe2.fit.representation.fit.yaml_drepr", "FitYamlWriter._get_preface_comment"),
 ]
 
-MODES = ["sym", "asym", "fixed", "noerr", "norte"]
+MODES = ["sym", "asym", "fixed", "noerr", "norte", "norte-asym"]  # norte = round_value_to_error=False
+ASYM_MODES = ("asym", "norte-asym")
+NORTE_MODES = ("norte", "norte-asym")
 MANT = ["carry", "tie", "logu", "round", "short"]
 REPORTS_PER_SHARD = {"quick": 6, "thorough": 190}
 
@@ -355,7 +357,7 @@ NAMES = ["a", "b", "x0", "tau", "A_0", "phi", "sigma", "par_long_name"]
 
 
 def gen_fmt_case(rng, idx, forced=None):
-    mode = forced[0] if forced else MODES[int(rng.choice(5, p=[0.45, 0.3, 0.08, 0.07, 0.1]))]
+    mode = forced[0] if forced else MODES[int(rng.choice(6, p=[0.42, 0.27, 0.08, 0.07, 0.08, 0.08]))]
     n = forced[1] if forced else int(rng.integers(1, 4))
     latex = forced[2] if forced else bool(rng.random() < 0.5)
     vcls = forced[3] if forced and len(forced) > 3 else None
@@ -374,7 +376,7 @@ def gen_fmt_case(rng, idx, forced=None):
     case = {"kind": "fmt", "mode": mode, "n": n, "latex": latex, "value": value, "error": error, "asym": None, "with_name": None, "classes": [vc, ec]}
     if rng.random() < 0.3:
         case["with_name"] = str(rng.choice(NAMES))
-    if mode == "asym":
+    if mode in ASYM_MODES:
         r = rng.random()
         up, _c, _e = gen_pos(rng, None, eexp)
         if r < 0.35:
@@ -414,17 +416,17 @@ def run_fmt(ctx, case):
     pf = ParameterFormatter(name or "p", value=value, error=error, asymmetric_error=a)
     if mode == "fixed":
         pf.fixed = True
-    kw = dict(with_name=bool(name), n_significant_digits=n, format_as_latex=latex, asymmetric_error=(mode == "asym"))
+    kw = dict(with_name=bool(name), n_significant_digits=n, format_as_latex=latex, asymmetric_error=(mode in ASYM_MODES))
     with_errors = True
     if mode == "noerr" and case.get("noerr") == "with_errors=False":
         kw["with_errors"] = with_errors = False
-    if mode == "norte":
+    if mode in NORTE_MODES:
         kw["round_value_to_error"] = False
     try:
         s = pf.get_formatted(**kw)
     except Exception as e:
         def key():
-            if isinstance(e, TypeError) and mode == "asym" and error is None:
+            if isinstance(e, TypeError) and mode in ASYM_MODES and error is None:
                 return "C17/asymmetric-format-needs-symmetric-error"
             return None
 
@@ -440,7 +442,7 @@ def run_fmt(ctx, case):
     parsed = parse_pm(body, latex)
     if not ctx.check("string.parsed", parsed is not None, {"string": s, "why": "not one of the documented forms"}):
         return False
-    return check_pm(ctx, parsed, value, error, asym, n, mode == "fixed", with_errors=with_errors, rte=(mode != "norte"), latex=latex, want_asym=(mode == "asym"), extra={"string": s})
+    return check_pm(ctx, parsed, value, error, asym, n, mode == "fixed", with_errors=with_errors, rte=(mode not in NORTE_MODES), latex=latex, want_asym=(mode in ASYM_MODES), extra={"string": s})
 
 
 # ---- CostFunctionFormatter strings
@@ -1115,14 +1117,37 @@ def check_model_string(ctx, fit, h, det):
     return True
 
 
-def observe(ctx, fit, case, tmpdir, step):
-    """One observation point: report, preface of to_file, result dict, model string; all against the held state."""
+def _asym_visible(h):
+    """True if, for a free parameter, an asymmetric uncertainty rounded to the two digits of the report differs from the
+    rounded symmetric one (only then can a report that shows the wrong kind of uncertainty be told apart)."""
+    if h["asym"] is None or h["errors"] is None:
+        return False
+    for nm, e, a in zip(h["names"], h["errors"], h["asym"]):
+        if nm in h["fixed"] or not (np.isfinite(e) and e > 0 and np.all(np.isfinite(a)) and np.all(a != 0)):
+            continue
+        r = round_sig_set(D(e), 2)[0]
+        if any(not num_eq_any(x, r) for side in a for x in round_sig_set(abs(D(side)), 2)[0]):
+            return True
+    return False
+
+
+def observe(ctx, fit, case, tmpdir, step, multi=False):
+    """One observation point: report, preface of to_file, result dict, model string; all against the held state.
+    multi: the fit is a MultiFit (no model function of its own and no file representation: report and dictionary only)."""
     ctx.op("observe")
     det = {"step": step}
     want_asym = bool(case["asym"]) and bool(fit.did_fit)
+    # lazy: the asymmetric uncertainties are asked for only by the display call itself (nothing reads them before)
+    lazy = want_asym and not case.get("asym_before_report", True)
+    if want_asym:
+        ctx.stratum("report", "asym-lazy" if lazy else "asym-settled")
+        if multi:
+            ctx.stratum("multi", "asym-lazy" if lazy else ("asym-at-fit" if case.get("asym_at_fit") else "asym-settled"))
+    elif multi and fit.did_fit:
+        ctx.stratum("multi", "sym")
     # settling read: the held state must not be a moving target while it is displayed (whether inspections move the fit
     # is property C08, not C17): read everything once, then snapshot before and after every display call
-    if want_asym:
+    if want_asym and not lazy:
         try:
             with time_limit(6 if ctx.tier == "quick" else 40):
                 fit.asymmetric_parameter_errors
@@ -1131,7 +1156,7 @@ def observe(ctx, fit, case, tmpdir, step):
         except Exception:
             ctx.note("observe.asymmetric-errors-not-computable")  # not a display problem: observe without them
             want_asym = False
-    pre_asym = want_asym
+    pre_asym = want_asym and not lazy
     try:
         with time_limit(90):
             held_state(fit, pre_asym)
@@ -1145,13 +1170,35 @@ def observe(ctx, fit, case, tmpdir, step):
     buf = io.StringIO()
     ctx.op("report")
     try:
-        with time_limit(60):
+        with time_limit((6 if ctx.tier == "quick" else 40) if lazy else 60):
             fit.report(buf, show_data=bool(step % 2), show_model=bool(step % 3 == 0), asymmetric_parameter_errors=want_asym)
+    except OpTimeout:
+        if lazy:
+            raise _Abort("asymmetric errors too slow")
+        raise
     except Exception as e:
-        ctx.check("report.no-exception", False, lambda: dict(det, exception=e, traceback=fmt_exc()))
+        tb = fmt_exc()
+        if lazy:
+            try:  # the calculation the report triggered fails on its own: not a display problem
+                with time_limit(6 if ctx.tier == "quick" else 40):
+                    fit.asymmetric_parameter_errors
+            except OpTimeout:
+                raise _Abort("asymmetric errors too slow")
+            except Exception:
+                ctx.note("observe.asymmetric-errors-not-computable")
+                raise _Abort("asymmetric errors not computable (asked for by the report)")
+        ctx.check("report.no-exception", False, lambda: dict(det, exception=e, traceback=tb))
         return False
     ctx.check("report.no-exception", True)
-    h = held_state(fit, want_asym)
+    try:
+        with time_limit(6 if ctx.tier == "quick" else 40):
+            h = held_state(fit, want_asym)
+    except OpTimeout:
+        raise _Abort("asymmetric errors too slow")
+    if want_asym and _asym_visible(h):
+        ctx.stratum("report", "asym-visible")
+        if multi:
+            ctx.stratum("multi", "asym-visible", "lazy" if lazy else "not-lazy")
     text = buf.getvalue()
     i0 = text.find("# Fit Results #")
     if not ctx.check("report.parsed", i0 >= 0, lambda: dict(det, text=text[-800:])):
@@ -1177,6 +1224,8 @@ def observe(ctx, fit, case, tmpdir, step):
         ctx.discard("held state moved during get_result_dict() (C08 territory): dictionary not compared")
     elif not check_result_dict(ctx, rd, h2, det):
         return False
+    if multi:
+        return True
     # ---- model string
     if not check_model_string(ctx, fit, h2, det):
         return False
@@ -1296,6 +1345,216 @@ def run_report(ctx, case):
     return complete
 
 
+# ------------------------------------------------------------------ Part B2: MultiFit reports
+def mm_dec1(x, A=1.0, tau=2.0):
+    return A * np.exp(-x / tau)
+
+
+def mm_dec2(x, B=1.0, tau=2.0):
+    return B * np.exp(-x / tau)
+
+
+def mm_sat1(x, A=1.0, k=1.0):
+    return A * (1.0 - np.exp(-k * x))
+
+
+def mm_sat2(x, B=1.0, k=1.0):
+    return B * (1.0 - np.exp(-k * x))
+
+
+def mm_line1(x, a=1.0, b=0.0):
+    return a * x + b
+
+
+def mm_line2(x, c=1.0, b=0.0):
+    return c * x + b
+
+
+def mi_tau(tau=2.0):
+    return tau + np.zeros(2)
+
+
+def mh_norm1(x, mu=0.1, sigma=1.0):
+    return np.exp(-0.5 * ((x - mu) / sigma) ** 2) / np.sqrt(2.0 * np.pi * sigma**2)
+
+
+def mh_norm2(x, nu=0.5, sigma=1.0):
+    return np.exp(-0.5 * ((x - nu) / sigma) ** 2) / np.sqrt(2.0 * np.pi * sigma**2)
+
+
+# name -> (members [(fit type, model function, its parameter names)], true values (unit scale), parameters that carry the y scale, linear?)
+MULTI = {
+    "dec2": ([("xy", mm_dec1, ["A", "tau"]), ("xy", mm_dec2, ["B", "tau"])], {"A": 2.2, "tau": 2.9, "B": 1.3}, {"A", "B"}, False),
+    "sat2": ([("xy", mm_sat1, ["A", "k"]), ("xy", mm_sat2, ["B", "k"])], {"A": 2.0, "k": 0.6, "B": 1.2}, {"A", "B"}, False),
+    "dec_aux": ([("xy", mm_dec1, ["A", "tau"]), ("indexed", mi_tau, ["tau"])], {"A": 2.2, "tau": 2.9}, {"A"}, False),
+    "hnorm2": ([("hist", mh_norm1, ["mu", "sigma"]), ("hist", mh_norm2, ["nu", "sigma"])], {"mu": 0.2, "sigma": 1.1, "nu": 0.6}, {"mu", "sigma", "nu"}, False),
+    "line2": ([("xy", mm_line1, ["a", "b"]), ("xy", mm_line2, ["c", "b"])], {"a": 1.3, "b": -0.4, "c": 0.7}, {"a", "b", "c"}, True),
+}
+MULTI_HISTORIES = {
+    "fit": ["do_fit", "observe"],
+    "unfitted-first": ["observe", "do_fit", "observe"],
+    "refit": ["do_fit", "observe", "set_values", "do_fit", "observe"],
+    "fix-later": ["do_fit", "observe", "fix", "do_fit", "observe"],
+}
+MULTI_ASYM = ["lazy", "settled", "at-fit", "none"]
+# stratified: (model, history, asymmetric mode, fix, minimizer)
+MULTI_COMBOS = [
+    ("dec2", "fit", "lazy", False, "iminuit"),
+    ("sat2", "fit", "lazy", False, "iminuit"),
+    ("dec_aux", "refit", "lazy", False, "iminuit"),
+    ("dec2", "fit", "at-fit", False, "iminuit"),
+    ("hnorm2", "fit", "lazy", False, "iminuit"),
+    ("dec2", "fix-later", "settled", False, "iminuit"),
+    ("line2", "unfitted-first", "none", False, "scipy"),
+    ("sat2", "fit", "lazy", True, "scipy"),
+    ("dec2", "refit", "lazy", False, "iminuit"),
+    ("sat2", "unfitted-first", "lazy", False, "iminuit"),
+    ("dec_aux", "fit", "settled", False, "scipy"),
+    ("line2", "fit", "lazy", False, "iminuit"),
+    ("hnorm2", "refit", "none", False, "scipy"),
+    ("dec_aux", "fix-later", "lazy", False, "iminuit"),
+    ("dec2", "fit", "none", True, "scipy"),
+    ("sat2", "refit", "at-fit", False, "iminuit"),
+]
+MULTI_PER_SHARD = {"quick": 2, "thorough": 60}
+
+
+def gen_multi_case(rng, idx, slot):
+    if slot < len(MULTI_COMBOS):
+        model, hist, amode, fix, mini = MULTI_COMBOS[slot]
+    else:
+        model = str(rng.choice(list(MULTI)))
+        hist = str(rng.choice(list(MULTI_HISTORIES)))
+        amode = MULTI_ASYM[int(rng.choice(4, p=[0.45, 0.15, 0.15, 0.25]))]
+        fix = bool(rng.random() < 0.25)
+        mini = str(rng.choice(["iminuit", "scipy"]))
+    members, true, scaled, _lin = MULTI[model]
+    pnames = list(true)
+    if amode != "none" and mini == "scipy" and len(pnames) - bool(fix) > 2:
+        mini = "iminuit"  # scipy profile scans of three free parameters take ~15 s
+    case = {
+        "kind": "multi",
+        "model": model,
+        "history": hist,
+        "asym": amode != "none",
+        "asym_before_report": amode != "lazy",
+        "asym_at_fit": amode == "at-fit",
+        "minimizer": mini,
+        "n": int(rng.integers(5, 10)),
+        "data_seed": int(rng.integers(0, 2**31)),
+        "yscale_exp": int(rng.integers(-6, 7)) if model != "hnorm2" else int(rng.integers(-3, 4)),
+        "rel_err": float(rng.choice([0.1, 0.2, 0.3])),
+        "fix": None,
+    }
+    if fix:
+        case["fix"] = str(pnames[int(rng.integers(0, len(pnames)))])
+    return case
+
+
+def _multi_member_data(case, i, seed_shift=0):
+    members, true, scaled, _lin = MULTI[case["model"]]
+    ftype, f, pn = members[i]
+    rng = np.random.default_rng([case["data_seed"], i, seed_shift])
+    s = 10.0 ** case["yscale_exp"]
+    t = [true[p] for p in pn]
+    if ftype == "xy":
+        n = case["n"] - i
+        x = np.sort(rng.uniform(0.2, 5.0, size=n)) + 0.1 * np.arange(n)
+        y0 = f(x, *t)
+        sig = case["rel_err"] * max(np.max(np.abs(y0)), 1e-3)
+        return {"x": x, "y": (y0 + rng.normal(0, sig, size=n)) * s, "yerr": sig * s}
+    if ftype == "indexed":  # an auxiliary measurement of an (unscaled) parameter
+        y0 = f(*t)
+        sig = 0.3 * np.max(np.abs(y0))
+        return {"y": y0 + rng.normal(0, sig, size=len(y0)), "yerr": sig}
+    nent = int(60 + 40 * case["n"])
+    return {"raw": rng.normal(t[0] * s, t[1] * s, size=nent), "range": (-3.0 * s, 3.5 * s), "bins": int(5 + (case["n"] + i) % 5)}
+
+
+def build_multi(case):
+    from kafe2 import HistContainer, HistFit, IndexedFit, MultiFit, XYFit
+
+    members, true, scaled, _lin = MULTI[case["model"]]
+    s = 10.0 ** case["yscale_exp"]
+    fits = []
+    for i, (ftype, f, _pn) in enumerate(members):
+        d = _multi_member_data(case, i)
+        if ftype == "xy":
+            m = XYFit([d["x"], d["y"]], f, minimizer=case["minimizer"])
+            m.add_error("y", d["yerr"])
+        elif ftype == "indexed":
+            m = IndexedFit(d["y"], f, minimizer=case["minimizer"])
+            m.add_error(d["yerr"])
+        else:
+            m = HistFit(HistContainer(d["bins"], d["range"], fill_data=d["raw"]), f, minimizer=case["minimizer"])
+        fits.append(m)
+    fit = MultiFit(fits, minimizer=case["minimizer"])
+    start = {p: t * 1.1 * (s if p in scaled else 1.0) for p, t in true.items()}
+    fit.set_parameter_values(**start)
+    if case["fix"] and case["history"] != "fix-later":
+        fit.fix_parameter(case["fix"], start[case["fix"]] / 1.1 * 1.02)
+    return fit, start
+
+
+def run_multi(ctx, case):
+    members, true, scaled, linear = MULTI[case["model"]]
+    pnames = list(true)
+    ctx.op("multi-report-case")
+    ctx.stratum("fit", "multi")
+    ctx.stratum("multi", "members", "+".join(m[0] for m in members))
+    ctx.stratum("multi", "linear" if linear else "nonlinear")
+    ctx.stratum("report", case["minimizer"])
+    if case["fix"] or case["history"] == "fix-later":
+        ctx.stratum("multi", "fixed")
+    ctx.add_to_set("multi-report-combos", "%s|%s|%s|%s|%s|%s" % (case["model"], case["history"], case["asym"], case["asym_before_report"], bool(case["fix"]), case["minimizer"]))
+    ctx.reseed_legacy()
+    np.random.seed(case["data_seed"] % (2**31 - 1))
+    try:
+        fit, start = build_multi(case)
+        fitted_obs = 0
+        step = 0
+        for op in MULTI_HISTORIES[case["history"]]:
+            step += 1
+            if op == "do_fit":
+                ctx.op("do_fit")
+                try:
+                    with time_limit(20 if ctx.tier == "quick" else 90):
+                        if case.get("asym_at_fit"):
+                            fit.do_fit(asymmetric_parameter_errors=True)
+                        else:
+                            fit.do_fit()
+                except Exception as e:  # a failing minimisation is not a display problem
+                    raise _Abort("do_fit raised %s" % type(e).__name__)
+            elif op == "observe":
+                if not fit.did_fit:
+                    ctx.stratum("multi", "unfitted")
+                if not observe(ctx, fit, case, None, step, multi=True):
+                    return False
+                fitted_obs += bool(fit.did_fit)
+            else:
+                ctx.op(op)
+                try:
+                    if op == "set_values":
+                        p = pnames[0]
+                        fit.set_parameter_values(**{p: float(fit.parameter_values[0]) * 1.2345 + 0.01 * abs(start[p])})
+                    elif op == "fix":
+                        p = case["fix"] or pnames[-1]
+                        fit.fix_parameter(p, float(fit.parameter_name_value_dict[p]) * 1.01)
+                    else:
+                        raise ValueError("unknown history op %r" % op)
+                except ValueError:
+                    raise
+                except Exception as e:  # a failing set-up operation is not a display problem
+                    raise _Abort("%s raised %s" % (op, type(e).__name__))
+        return fitted_obs > 0
+    except OpTimeout:
+        ctx.discard("report-case-timeout")
+        return False
+    except _Abort as e:
+        ctx.discard("multi report case: %s" % e)
+        return False
+
+
 # ------------------------------------------------------------------ driver
 def run_case(ctx, case):
     decimal.setcontext(DC)
@@ -1308,6 +1567,8 @@ def run_case(ctx, case):
         return run_compact(ctx, case)
     if k == "report":
         return run_report(ctx, case)
+    if k == "multi":
+        return run_multi(ctx, case)
     raise ValueError("unknown case kind %r" % k)
 
 
@@ -1340,12 +1601,19 @@ def run_shard(ctx):
         _one(ctx, gen_fmt_case(rng, idx, f))
         idx += 1
     target = REPORTS_PER_SHARD[ctx.tier]
-    nrep = 0
+    mtarget = MULTI_PER_SHARD[ctx.tier]
+    nrep = nmulti = 0
     t_rep = 0.0
     import time
 
     while ctx.more():
         # reports first (stratified over shards), interleaved with strings; at most ~45 % of the budget
+        if nmulti < mtarget and (nmulti == 0 or t_rep < 0.45 * ctx.budget_s):
+            t0 = time.monotonic()
+            _one(ctx, gen_multi_case(rng, idx, ctx.shard + ctx.nshards * nmulti))
+            idx += 1
+            nmulti += 1
+            t_rep += time.monotonic() - t0
         if nrep < target and t_rep < 0.45 * ctx.budget_s:
             t0 = time.monotonic()
             slot = ctx.shard + ctx.nshards * nrep
